@@ -57,6 +57,13 @@ CLAIMED = {
         "note": "Trusted: SimFS's POSIX model (atomic rename, unlink semantics, no-fsync durability), process death = no further file-system call; the cache-less compile of the same code as reference. Known finding KF-C27-1 (configuration not part of key/checksum) is matched only by a structured classifier: the load read an entry written under another configuration and the observed behaviour equals executing that configuration's code in the reader environment; same-config runs get no tolerance.",
         "design": "DESIGN.md §4 C27, §3.5",
     },
+    "C13": {
+        "level": "exploration",
+        "technique": "deterministic simulation: seeded histories over differently configured environments / overlays / Template(...) with shrunken lexer cache, executed by 1-3 baton-passed threads (sys.monitoring LINE pre-emption in environment.py, utils.py, lexer construction), differential oracle vs isolated render",
+        "text": "Decides ONLY the second sentence of C13 (creating and using such environments never changes how previously configured environments render). Seeded histories of environment creation, overlays (same/changed options, with/without cache_size), Template(...) construction (more configurations than the spontaneous-environment cache holds), from_string/get_template renders through a shared loader and clear_caches, with the lexer cache shrunk to 1-3 entries so eviction and re-creation happen, run by 1-3 simulated threads with seeded pre-emptions inside the shared-cache code. Every render must equal the isolated render of the same (configuration, source, data). Sampling, not enumeration.",
+        "note": "NOT decided: the first sentence (equivalent delimiter sets / line statements / overlays render the same text) - a pure metamorphic property of the lexer with no schedule or history in it, not applicable to this technique. Trusted: isolated render of the same code as reference; GIL atomicity below source-line granularity; the lexer-cache capacity knob pokes jinja2.lexer._lexer_cache.capacity (skipped if absent).",
+        "design": "DESIGN.md §4 C13, §3.3",
+    },
 }
 
 PENDING_REASON = "check not built yet in this session (planned as a simulation check, DESIGN.md §4); not claimed until it exists"
